@@ -15,7 +15,7 @@ from .. import astutil as A
 from ..fa import FA
 from ..loader import AnalysisError
 from .c15 import (FRAME, absent_edges, alias_text, batch_seqs, body_starts, call_batch_dispatch, enclosing_position, expand_alias, heads_of,
-                  is_calling_frame, not_edges, origins, position_loops, result_loops, result_name)
+                  is_calling_frame, iteration_counts, not_edges, origins, position_loops, pushes, result_loops, result_name, under)
 
 RL = "runner_local"
 INV_LIST = ("invocation_metadata", "invocations")
@@ -79,6 +79,20 @@ def set_updates(fa):
         if isinstance(s.op, ast.BitOr) and fa.nodes(s):
             x = _single(s.value)
             out.append((fa.nodes(s), s.target, "elem" if x is not None else "union", x if x is not None else s.value))
+    # `for x in T: s.add(x)` (on every iteration, x being the loop's own variable)  ==  s |= T
+    looped = []
+    for (ids, r, kind, x) in out:
+        lp = fa.enclosing(fa.cfg.node(ids[0]).ast, ast.For) if kind == "elem" and isinstance(x, ast.Name) else None
+        if lp is not None and isinstance(lp.target, ast.Name) and lp.target.id == x.id and not lp.orelse and fa.nodes(lp) \
+                and all(d.kind == "for" and d.stmt is lp for i in ids for d in fa.df.reaching(i, x.id)) \
+                and not any(isinstance(n, ast.Name) and n.id == A.root_name(r) for n in ast.walk(lp.iter)):
+            heads = heads_of(fa, lp)
+            skip, _twice = iteration_counts(fa, heads, ids)
+            if not skip and heads:
+                looped.append((heads, r, "union", lp.iter))
+                continue
+        looped.append((ids, r, kind, x))
+    out = looped
     # s |= a | b  ==  s |= a; s |= b
     flat = []
     for (ids, r, kind, x) in out:
@@ -109,15 +123,13 @@ def prop_sites(fa):
         rm = A.arg_or_kw(c, 1, P_RESULT)
         sites.append(Site(c, False, cm, fa.expand(cm, ids[0]) if cm is not None else None, fa.expand(rm, ids[0]) if rm is not None else None, ids[0], [ids]))
     ups = None
-    for c in fa.calls("append"):
+    for pu in pushes(fa):
+        c, recv = pu.node, pu.recv
         ids = fa.nodes(c)
-        recv = A.call_recv(c)
-        if not ids or recv is None or len(c.args) != 1:
-            continue
         X = _strip(expand_alias(fa, recv, ids[0]), INV_LIST)
         if X is None:
             continue
-        Y = _strip(expand_alias(fa, c.args[0], ids[0]), OWN_REF)
+        Y = _strip(expand_alias(fa, pu.elem, ids[0]), OWN_REF)
         adds, merges = [], []
         if Y is not None:
             xt, yt = A.norm(X) + ".function_dependencies", A.norm(Y)
@@ -706,34 +718,40 @@ def _r2(ck, R2):
 # R3
 # =================================================================================================
 
-def _passes_unless_member(pd, add_nodes, elems):
-    """Every path to the exit performs the add, except paths on which a test established that the
-    element is already a member (adding would be a no-op)."""
-    elems = set(elems)
-    member_tests = [n.id for n in pd.cfg.nodes if n.kind == "test" and isinstance(n.ast, ast.Compare) and len(n.ast.ops) == 1
-                    and isinstance(n.ast.ops[0], ast.In) and A.norm(n.ast.left) in elems]
-    r = pd.cfg.reach([pd.cfg.entry], removed=add_nodes, edge_ok=lambda s, d, l: not (s in member_tests and l == "T"))
-    return pd.cfg.exit not in r
-
-
 def _r3(ck, R3):
     pd = FA(ck, RL + ".propagate_dependencies")
     P_CALLER, P_RESULT = _pd_params(ck)
-    CALLER_DEPS = "attr:%s.function_dependencies" % P_CALLER
-    app = [c for c in pd.calls("append") if pd.nodes(c) and c.args and A.call_recv(c) is not None
-           and "attr:%s.invocation_metadata.invocations" % P_CALLER in pd.deps(A.call_recv(c))]
-    ok1 = bool(app) and all("attr:%s.invocation_metadata.fn_reference_with_args" % P_RESULT in pd.deps(c.args[0]) for c in app) \
-        and pd.cfg.must_pass(pd.nodes_all(app), pd.cfg.exit)
+    INV = "%s.invocation_metadata.invocations" % P_CALLER
+    DEPS = "%s.function_dependencies" % P_CALLER
+    REF = "%s.invocation_metadata.fn_reference_with_args" % P_RESULT
+    # what is recorded is decided on the objects the expressions denote (temporaries and aliases followed), not on
+    # which statement form grows the list / the set
+    app = [pu for pu in pushes(pd) if alias_text(pd, pu.recv, pd.nodes(pu.node)[0]) == INV]
+    ok1 = bool(app) and all(alias_text(pd, pu.elem, pd.nodes(pu.node)[0]) == REF for pu in app) \
+        and pd.cfg.must_pass(pd.nodes_all(pu.node for pu in app), pd.cfg.exit)
     ck.ob(R3, pd.key(None, "appends-invocation"), ok1, "the callee's reference-with-arguments is appended to the caller's invocations" if ok1 else
           "propagate_dependencies does not append the callee invocation to the caller's invocation list", pd.where())
-    ups = [(ids, r, kind, x) for (ids, r, kind, x) in set_updates(pd) if CALLER_DEPS in pd.deps(r, ids[0])]
+    ups = [(ids, r, kind, x) for (ids, r, kind, x) in set_updates(pd) if alias_text(pd, r, ids[0]) == DEPS]
     adds = [(ids, x) for (ids, r, kind, x) in ups if kind == "elem"]
-    ok2 = bool(adds) and all("attr:%s.invocation_metadata.fn_reference_with_args.fn_reference" % P_RESULT in pd.deps(x, ids[0]) for (ids, x) in adds) \
-        and _passes_unless_member(pd, [i for (ids, x) in adds for i in ids], [A.norm(x) for (ids, x) in adds])
+    ok2 = bool(adds) and all(alias_text(pd, x, ids[0]) == REF + ".fn_reference" for (ids, x) in adds)
+    if ok2:
+        # every path performs the add, except paths on which a test established that the reference is a member already
+        add_nodes = {i for (ids, x) in adds for i in ids}
+
+        def member(val):
+            def f(e, n):
+                if isinstance(e, ast.Compare) and len(e.ops) == 1 and isinstance(e.ops[0], (ast.In, ast.NotIn)) \
+                        and alias_text(pd, e.left, n) == REF + ".fn_reference" and alias_text(pd, e.comparators[0], n) == DEPS:
+                    return val == isinstance(e.ops[0], ast.In)
+                return None
+            return f
+        ok2 = pd.cfg.exit not in pd.cfg.reach([pd.cfg.entry], removed=add_nodes, edge_ok=under(pd, member(False)))
+        ck.paths_enumerated += 1
     ck.ob(R3, pd.key(None, "adds-callee"), ok2, "the callee's function reference joins the caller's dependency set" if ok2 else
           "propagate_dependencies does not add the callee's function reference to the caller's dependencies", pd.where())
-    merges = [ids for (ids, r, kind, x) in ups if kind == "union" and "attr:%s.function_dependencies" % P_RESULT in pd.deps(x, ids[0])]
-    okm = bool(merges) and pd.cfg.must_pass([i for ids in merges for i in ids], pd.cfg.exit)
+    merges = [(ids, x) for (ids, r, kind, x) in ups if kind == "union"]
+    okm = bool(merges) and all(alias_text(pd, x, ids[0]) == "%s.function_dependencies" % P_RESULT for (ids, x) in merges) \
+        and pd.cfg.must_pass([i for (ids, x) in merges for i in ids], pd.cfg.exit)
     ck.ob(R3, pd.key(None, "merges-transitive"), okm, "the callee's transitive dependencies are merged into the caller's on every path" if okm else
           "propagate_dependencies can return without merging the callee's dependency set (early return / missing union): when the same function is "
           "called twice with arguments that reach different functions, or recursively, transitive dependencies are lost", pd.where())
@@ -743,8 +761,8 @@ def _r3(ck, R3):
 # R4
 # =================================================================================================
 
-def _ctor_arg(ck, fa, call, init_qual, name):
-    """The (expanded) argument a constructor call binds to parameter `name`, keyword or positional."""
+def _ctor_arg_raw(ck, call, init_qual, name):
+    """The argument expression (as written) a constructor call binds to parameter `name`, keyword or positional."""
     v = A.kwarg(call, name)
     if v is None:
         init = ck.repo.try_func(init_qual)
@@ -752,25 +770,110 @@ def _ctor_arg(ck, fa, call, init_qual, name):
             params = [a.arg for a in init.node.args.posonlyargs + init.node.args.args][1:]
             if name in params:
                 v = A.arg_or_kw(call, params.index(name), name)
+    return v
+
+
+def _ctor_arg(ck, fa, call, init_qual, name):
+    """The (expanded) argument a constructor call binds to parameter `name`, keyword or positional."""
+    v = _ctor_arg_raw(ck, call, init_qual, name)
     return fa.expand(v, fa.nodes(call)[0]) if v is not None else None
+
+
+def _display_elements(e):
+    """The elements of a set / list written as a display or built from one: {a}, set(), set([a]), set((a,)), [] ..."""
+    if isinstance(e, (ast.Set, ast.List)) and not any(isinstance(x, ast.Starred) for x in e.elts):
+        return list(e.elts)
+    if isinstance(e, ast.Call) and isinstance(e.func, ast.Name) and e.func.id in ("set", "list") and not e.keywords:
+        if not e.args:
+            return []
+        if len(e.args) == 1 and isinstance(e.args[0], (ast.Set, ast.List, ast.Tuple)) and not any(isinstance(x, ast.Starred) for x in e.args[0].elts):
+            return list(e.args[0].elts)
+    return None
+
+
+class Built:
+    """A container a constructor builds for one field: the one place it is created (`leaf`, a display evaluated in
+    this function) and everything the function puts into it before it returns — through the local it was bound to or
+    through the field path it ends up under."""
+
+    def __init__(self, fa, expr, at, field_path):
+        self.fa = fa
+        self.leaf = self.at = None
+        self.elems = None      # [(expression, node)] or None (contents not known)
+        lv = origins(fa, expr, at) if expr is not None else []
+        if len(lv) != 1:
+            return
+        self.leaf, self.at = lv[0]
+        first = _display_elements(self.leaf)
+        if first is None:
+            return
+        elems = [(x, self.at) for x in first]
+
+        def is_it(r, n):
+            if isinstance(r, ast.Name):
+                o = origins(fa, ast.Name(id=r.id, ctx=ast.Load()), n)
+                return len(o) == 1 and o[0][0] is self.leaf
+            return alias_text(fa, r, n) == field_path
+        grown = [(ids, kind, x) for (ids, r, kind, x) in set_updates(fa) if is_it(r, ids[0])]
+        grown += [(fa.nodes(pu.node), "elem", pu.elem) for pu in pushes(fa) if is_it(pu.recv, fa.nodes(pu.node)[0])]
+        for (ids, kind, x) in grown:
+            more = [x] if kind == "elem" else _display_elements(x)
+            if more is None or not fa.cfg.must_pass(ids, fa.cfg.exit):
+                return      # grown by something unknown / on some paths only
+            elems += [(y, ids[0]) for y in more]
+        self.elems = elems
+
+    def texts(self):
+        return None if self.elems is None else sorted({self.fa.xnorm(x, n) for (x, n) in self.elems})
+
+
+def _mutable_default_reaches_record(ck, module):
+    """A helper of the module that builds (part of) the record from a parameter whose default value is one shared
+    mutable object (`def f(..., items=[])`): every call that leaves the parameter out uses the same list / set."""
+    inl = getattr(ck.repo, "inliner", None)
+    for fi in list(getattr(inl, "new", []) or []):
+        if fi.module.name != module:
+            continue
+        a = fi.node.args
+        pos = a.posonlyargs + a.args
+        shared = [p.arg for p, d in list(zip(pos[len(pos) - len(a.defaults):], a.defaults)) + [(p, d) for p, d in zip(a.kwonlyargs, a.kw_defaults) if d is not None]
+                  if _display_elements(d) is not None or isinstance(d, (ast.Dict, ast.ListComp, ast.SetComp, ast.DictComp))
+                  or (isinstance(d, ast.Call) and isinstance(d.func, ast.Name) and d.func.id in ("dict", "defaultdict", "deque"))]
+        if not shared:
+            continue
+        g = FA(ck, fi)
+        for c in g.calls():
+            if A.call_attr(c) in ("InvocationMetadata", "Memento") and g.nodes(c):
+                for v in list(c.args) + [k.value for k in c.keywords]:
+                    hit = [p for p in shared if "param:" + p in g.deps(v, g.nodes(c)[0])]
+                    if hit:
+                        return fi, hit[0]
+    return None
 
 
 def _r4(ck, R4):
     sfi = FA(ck, "call_stack.StackFrame.__init__")
     OWN = sfi.fi.params[1] if len(sfi.fi.params) > 1 else "fn_reference_with_args"
     mc = sfi.one([c for c in sfi.calls("Memento") if sfi.nodes(c)], "Memento(...) construction")
-    fd = _ctor_arg(ck, sfi, mc, "metadata.Memento.__init__", "function_dependencies")
-    if isinstance(fd, ast.Call) and isinstance(fd.func, ast.Name) and fd.func.id == "set" and len(fd.args) == 1 and isinstance(fd.args[0], (ast.List, ast.Tuple, ast.Set)):
-        fd = ast.Set(elts=fd.args[0].elts)
-    ok4 = isinstance(fd, ast.Set) and len(fd.elts) == 1 and A.norm(fd.elts[0]) == OWN + ".fn_reference"
+    at = sfi.nodes(mc)[0]
+    # the record as it stands when the constructor returns: what the dependency set was created with plus what was
+    # added to it on the way (`deps = set(); deps.add(ref.fn_reference)` and `{ref.fn_reference}` are the same record)
+    fd = Built(sfi, _ctor_arg_raw(ck, mc, "metadata.Memento.__init__", "function_dependencies"), at, "self.memento.function_dependencies")
+    ok4 = fd.texts() == [OWN + ".fn_reference"]
     ck.ob(R4, sfi.key(None, "self-in-deps"), ok4, "the dependency set starts as {own function reference}" if ok4 else
-          "a new frame's dependency set does not start as {its own function reference} (%s)" % A.norm(fd), sfi.where(mc))
+          "a new frame's dependency set does not start as {its own function reference} (%s)" % (", ".join(fd.texts()) if fd.texts() is not None else A.norm(fd.leaf)),
+          sfi.where(mc))
     im = sfi.one([c for c in sfi.calls("InvocationMetadata") if sfi.nodes(c)], "InvocationMetadata(...) construction")
+    iat = sfi.nodes(im)[0]
     IMI = "metadata.InvocationMetadata.__init__"
-    inv, res, fr = (_ctor_arg(ck, sfi, im, IMI, n) for n in ("invocations", "resources", "fn_reference_with_args"))
-    ok5 = isinstance(inv, ast.List) and not inv.elts and isinstance(res, ast.List) and not res.elts
+    inv = Built(sfi, _ctor_arg_raw(ck, im, IMI, "invocations"), iat, "self.memento.invocation_metadata.invocations")
+    res = Built(sfi, _ctor_arg_raw(ck, im, IMI, "resources"), iat, "self.memento.invocation_metadata.resources")
+    shared = _mutable_default_reaches_record(ck, "call_stack")
+    ok5 = inv.texts() == [] and res.texts() == [] and isinstance(inv.leaf, ast.List) and isinstance(res.leaf, ast.List) and inv.leaf is not res.leaf and shared is None
     ck.ob(R4, sfi.key(None, "fresh-lists"), ok5, "invocations and resources start as fresh empty lists" if ok5 else
-          "a new frame does not start with fresh empty invocation/resource lists", sfi.where(im))
+          ("a new frame does not start with fresh empty invocation/resource lists" if shared is None else
+           "the frame's record is built from parameter `%s` of %s, whose default value is one list shared by every frame" % (shared[1], shared[0].qual)), sfi.where(im))
+    fr = _ctor_arg(ck, sfi, im, IMI, "fn_reference_with_args")
     ok6 = fr is not None and A.norm(fr) == OWN
     ck.ob(R4, sfi.key(None, "own-reference"), ok6, "the memento records the invocation's own reference" if ok6 else
           "the frame memento does not record the invocation's own reference", sfi.where(im))
@@ -783,22 +886,24 @@ def _r4(ck, R4):
 def _r5(ck, R5):
     rf = FA(ck, "resource_function.ResourceFunction.__call__")
     RES = FRAME + ".memento.invocation_metadata.resources"
-    apps = [c for c in rf.calls("append") if rf.nodes(c) and len(c.args) == 1 and A.call_recv(c) is not None
-            and alias_text(rf, A.call_recv(c), rf.nodes(c)[0]) == RES]
+    apps = [pu for pu in pushes(rf) if alias_text(rf, pu.recv, rf.nodes(pu.node)[0]) == RES]
     no_caller = absent_edges(rf, is_calling_frame(rf))
     rets = [r for r in rf.returns() if r.value is not None and rf.nodes(r)]
     okr = bool(apps) and bool(rets)
     if okr:
-        an = rf.nodes_all(apps)
+        an = rf.nodes_all(pu.node for pu in apps)
         # a handle is returned to a caller that has a frame only after it was appended to that frame's resources ...
         live = rf.cfg.reach([rf.cfg.entry], removed=an, edge_ok=not_edges(no_caller))
         okr = not (set(rf.nodes_all(rets)) & live)
-        # ... and what is appended is what is returned
+        # ... and what is appended is what is returned: the same evaluation, not an equal-looking second one
         with_caller = rf.cfg.reach([rf.cfg.entry], edge_ok=not_edges(no_caller))
-        appended = {rf.xnorm(c.args[0], rf.nodes(c)[0]) for c in apps}
+
+        def made(e, n):
+            return frozenset(id(x) for (x, _n) in origins(rf, e, n))
+        appended = {made(pu.elem, rf.nodes(pu.node)[0]) for pu in apps}
         for r in rets:
             if set(rf.nodes(r)) & with_caller:
-                okr = okr and rf.xnorm(r.value, rf.nodes(r)[0]) in appended
+                okr = okr and made(r.value, rf.nodes(r)[0]) in appended
         ck.paths_enumerated += 2
     ck.ob(R5, rf.key(None, "appends-handle"), okr, "the returned handle is appended to the calling frame's resources" if okr else
           "a resource handle can be returned without being recorded in the calling frame's memento", rf.where())
